@@ -69,6 +69,18 @@ func compareModel(c *Ctx, p *m.Program, opt compareOpts) (*m.Result, *sb.Resp, *
 		c.Ev.Label("discard:"+discardClass(res.Why), 1)
 		return res, nil, nil
 	}
+	// State carried from a failed execution into a later one (pooled or
+	// reused buffers that are only cleaned on the success path) must not show:
+	// for one case in four a failing template that has emitted text inside
+	// every capturing construct is executed in the same worker first.
+	key := progKey(p)
+	if hashStr(key)%4 == 0 {
+		poison := c.SB.Do(&sb.Req{Op: "exec", Env: p.Env, Loader: "memory", Entry: "poison", Templates: map[string]string{"poison": poisonTemplates[hashStr(key)/4%uint64(len(poisonTemplates))]}})
+		if poison.Fatal() {
+			return res, poison, fatalFail(poison)
+		}
+		c.Ev.Label("poisoned-before", 1)
+	}
 	r := c.SB.Do(execReq(p))
 	if r.Fatal() || r.Status == "infra" {
 		return res, r, fatalFail(r)
@@ -149,4 +161,14 @@ func sampleProg(p *m.Program, res *m.Result) map[string]interface{} {
 		tpls[n] = clip(s, 600)
 	}
 	return map[string]interface{}{"templates": tpls, "entry": p.Entry, "model_status": res.Status, "model_out": clip(res.Out, 300)}
+}
+
+// poisonTemplates fail at run time after emitting text inside a capture.
+var poisonTemplates = []string{
+	"{% set a %}STALE-SET {{ nosuchfunction() }}{% endset %}",
+	"{% filter up %}stale-filter {{ nosuchfunction() }}{% endfilter %}",
+	"{% macro m() %}STALE-MACRO {{ nosuchfunction() }}{% endmacro %}{{ _self.m() }}",
+	"{% block b %}STALE-BLOCK {{ nosuchfunction() }}{% endblock %}{{ block('b') }}",
+	"{% set a %}S1{% filter up %}s2{% set b %}S3{{ 1|nosuchfilter }}{% endset %}{% endfilter %}{% endset %}",
+	"STALE-TOP{% for i in 1..3 %}{% set c %}x{{ i }}{% include 'missing' %}{% endset %}{% endfor %}",
 }
